@@ -53,12 +53,18 @@ def s1_jobs(tier, harness, quick_n5_max_edges=None, with_routes=True):
     """The standard S1 job list.  harness(E, ctx, aux, desc)."""
 
     def mk(name, N, entry=None, max_edges=None, skeleton=None, budget=900.0, required=True, exp=None, dag=False, routes=None, prefix="b",
-           features=None):
+           features=None, counters=None):
         def space():
             return s1_space(N, entry=entry, max_edges=max_edges, skeleton=skeleton, dag=dag, features=features)
 
         def h(E, ctx, aux):
             desc = realise_s1(E, aux, prefix=prefix)
+            if counters is not None:
+                for c in counters:
+                    d = dict(desc, counter_start=c)
+                    ctx.current = d
+                    harness(E, ctx, aux, d)
+                return
             if routes is None:
                 ctx.current = desc
                 harness(E, ctx, aux, desc)
@@ -74,7 +80,8 @@ def s1_jobs(tier, harness, quick_n5_max_edges=None, with_routes=True):
             harness=h,
             bounds={"space": "S1 closed CFGs", "blocks": N, "entry": "any" if entry is None else f"b{entry}",
                     "max_edges": max_edges, "skeleton": skeleton, "max_successors": 2, "acyclic_forward_edges_only": dag,
-                    "names": f"{prefix}0..{prefix}{N-1}", "routes": routes or ["direct"], "required_shape_features": features},
+                    "names": f"{prefix}0..{prefix}{N-1}", "routes": routes or ["direct"], "required_shape_features": features,
+                    "name_generator_counters_start_at": counters or [0]},
             budget_s=budget,
             expect_paths=exp,
             required=required,
@@ -90,6 +97,8 @@ def s1_jobs(tier, harness, quick_n5_max_edges=None, with_routes=True):
     # histories: the graph is written to a dictionary / YAML and read back between two stages
     RELOADS = ["reload@1", "reload@2", "yreload@2"]
     BOTH = ["direct", "reload@2"] if with_routes else None
+    if os.environ.get("VERIF_PROBE"):
+        jobs.append(mk("probe-counters", 5, 0, counters=[int(x) for x in os.environ["VERIF_PROBE"].split(",")]))
     if with_routes:
         jobs.append(mk("S1-N4-all-entries-reloaded-between-stages", 4, None, exp=expected(4, None), routes=RELOADS))
     if tier != "quick":
